@@ -594,6 +594,49 @@ def gen_event_sync_scenario(seed: int, case_no: int) -> dict:
             "seed": seed, "case_no": case_no, "T": T, "epoch": epoch, "kinds": kinds}
 
 
+def gen_chain_case(seed: int, case_no: int) -> dict:
+    """Narrow-column family: every duration of the rank is below 128 (the parser down-casts the dur column to int8; ids and
+    counts stay small too) while SUMS and UNIONS of them are not: a chain of kernels of 60-110 us staggered every 40 us on two or
+    three streams (one stretch of several hundred us), launched from short instances of a few operator names."""
+    rng = random.Random(seed * 5_000_011 + case_no)
+    host_pid, gpu_pid = 100, 0
+    streams = rng.sample([7, 13, 20], rng.randint(2, 3))
+    knames = rng.sample(["gemm_a", "relu", "ncclKernel_AllReduce", "Memcpy DtoD (Device -> Device)", "bn", "ncclDevKernel_AllGather", "conv"], 4)
+    onames = rng.sample(["aten::linear", "aten::conv2d", "aten::relu_", "aten::add"], 2)
+    ranks = {}
+    for r in range(rng.randint(1, 2)):
+        evs = [{"ph": "X", "cat": "cpu_op", "name": "aten::zeros", "pid": host_pid, "tid": 1, "ts": 0, "dur": 2, "args": {"External id": 1}}]
+        n = rng.randint(8, 16)
+        step = rng.choice([30, 40, 50])
+        for j in range(n):
+            t0 = step * j + 5
+            evs.append({"ph": "X", "cat": "cpu_op", "name": onames[j % 2], "pid": host_pid, "tid": 1, "ts": t0, "dur": rng.randint(12, step - 6),
+                        "args": {"External id": 10 + j}})
+            evs.append({"ph": "X", "cat": "cuda_runtime", "name": "cudaLaunchKernel", "pid": host_pid, "tid": 1, "ts": t0 + 2, "dur": rng.randint(1, 4),
+                        "args": {"correlation": 100 + j, "External id": 10 + j}})
+            s_ = streams[j % len(streams)]
+            evs.append({"ph": "X", "cat": "kernel", "name": knames[j % 2], "pid": gpu_pid, "tid": s_, "ts": t0 + 15 + rng.randint(0, 5),
+                        "dur": rng.randint(60, 110), "args": {"stream": s_, "device": gpu_pid, "correlation": 100 + j, "External id": 10 + j}})
+        first, rest = evs[0], evs[1:]
+        rng.shuffle(rest)
+        ranks[r] = {"events": [first] + rest, "fmt": "gz" if rng.random() < 0.5 else "json", "indent": False}
+    return {"ranks": ranks, "profile": "chain", "seed": seed, "case_no": case_no, "T": 600, "epoch": 0}
+
+
+def add_idless_sync_record(case: dict, rng) -> None:
+    """A device-wide synchronisation record WITHOUT correlation id (stream -1) in every rank: it must stay unlinked and must not
+    attract the id-less host events."""
+    for rk in case["ranks"].values():
+        evs = rk["events"]
+        ts = [e["ts"] for e in evs if "ts" in e and "dur" in e]
+        if not ts:
+            continue
+        a = rng.randint(min(ts), max(ts))
+        gp = next((e["pid"] for e in evs if e.get("cat") in ("kernel", "gpu_memcpy", "gpu_memset")), 0)
+        evs.insert(rng.randint(1, len(evs)), {"ph": "X", "cat": "cuda_sync", "name": rng.choice(["Event Sync", "Context Sync"]), "pid": gp, "tid": 0,
+                                               "ts": a, "dur": rng.randint(0, 5), "args": {"cuda_sync_kind": "Event Sync", "stream": -1}})
+
+
 def add_second_process(case: dict, rng) -> None:
     """A second host process in some ranks whose thread has the SAME thread id as a thread of the first one (as with several
     processes recorded into one trace): a copy of one host thread's events under another pid; its launch-like calls get fresh
@@ -724,6 +767,11 @@ _reg(Profile(name="queue_skew", tmax_choices=(8, 12, 20, 40), n_ranks=(1, 2), p_
              p_orphan_kernel=0.1, p_kernel_zero=0.1, n_streams=(1, 3), p_zero_dur=0.1, max_children=5, kernel_causal=False))
 _reg(Profile(name="queue_wide", tmax_choices=(110, 600, 5000), n_ranks=(1, 2), p_launch=0.7, p_mem_launch=0.4, n_streams=(1, 3), n_steps=(0, 3)))
 _reg(Profile(name="meta", n_steps=(0, 3), n_ranks=(2, 3), tmax_choices=(12, 24, 40, 110), p_launch=0.55, p_mem_launch=0.35, p_orphan_kernel=0.2, p_sync=0.2))
+_reg(Profile(name="comm_overlap_bigvocab", device="free", n_free_kernels=(2, 12), tmax_choices=(10, 16, 30), kernel_causal=False,
+             p_launch=0.2, n_ranks=(2, 3), p_kernel_zero=0.1, n_pad=(60, 100), unique_pad_names=True,
+             kernel_names=("ncclKernel_AllReduce_RING_LL_Sum_float(ncclWorkElem)", "ncclDevKernel_AllGather_RING", "nccl:all_reduceKernel",
+                           "ampere_sgemm_128x64_nn", "elementwise", "ncclFoo", "xMemcpy", "Memcpy DtoD (Device -> Device)", "barSync",
+                           "sm80_xmma_gemm", "ncclKernel_x")))
 _reg(Profile(name="kbreak", device="free", n_free_kernels=(3, 18), tmax_choices=(6, 10, 16, 30, 110), kernel_causal=False, p_launch=0.3, n_ranks=(1, 3),
              p_kernel_zero=0.1, p_gpu_annotation=0.6))
 _reg(Profile(name="kbreak_fewnames", device="free", n_free_kernels=(4, 18), tmax_choices=(6, 10, 16, 30), kernel_causal=False, p_launch=0.2, n_ranks=(1, 2),
